@@ -242,11 +242,11 @@ func (d *reqDumper) getData() []byte {
 	if !ok {
 		return nil
 	}
-	aligned := length
+	aligned := uint64(length)
 	if n := length % 4; n != 0 {
-		aligned += 4 - n
+		aligned += uint64(4 - n)
 	}
-	if uint32(len(d.buf)) < aligned {
+	if uint64(len(d.buf)) < aligned {
 		d.err = io.ErrUnexpectedEOF
 		return nil
 	}
